@@ -159,17 +159,17 @@ func (sess *session) newRef(fid Fid) (ref *SFid, err error) {
 func (sess *session) delRef(ctx context.Context, fid Fid,
 	remove bool) error {
 
-	ref1, found := sess.refs.LoadAndDelete(fid)
-	if !found {
-		return ErrUnknownfid
+	// Lock the fid first and unbind it while holding the lock, like every
+	// other operation: deleting the table entry before taking the lock made
+	// the removal visible to other requests while an earlier request was
+	// still using the fid, and let a clunk delete (and report success for)
+	// a fid that a walk had only reserved.
+	ref, err := sess.getRef(fid)
+	if err != nil {
+		return err
 	}
-	ref, _ := ref1.(*SFid)
-
-	ref.Lock()
 	defer ref.Unlock()
-	if ref.Ent == nil {
-		return nil
-	}
+	sess.refs.Delete(fid)
 
 	return delRefAction(ctx, ref, remove)
 }
